@@ -559,6 +559,17 @@ func runC16(cfg Config) {
 					b, _ = os.ReadFile(filepath.Join(tmp, oid.String()[:4], oid.String()+ownExt))
 				}
 				os.WriteFile(p, b, 0644)
+				// not every change of a stored object is damage: a flipped bit in a zstd frame header (window descriptor,
+				// unused bits) leaves the decoded bytes as they were.  Whether the object is still valid is decided by what
+				// it decodes to (zstd is a parameter of the model: dec = Decompress(raw)), not by the fact that it was touched.
+				d := b
+				if !unc {
+					var derr error
+					if d, derr = desync.Decompress(nil, b); derr != nil {
+						d = nil
+					}
+				}
+				valid[rel] = len(d) > 0 && desync.Digest.Sum(d) == id
 			}
 			switch rng.Intn(8) {
 			case 0, 1, 2:
@@ -567,7 +578,6 @@ func runC16(cfg Config) {
 			case 3, 4:
 				own.StoreChunk(c)
 				damage(canon)
-				valid[canon] = false
 			case 5: // the other format, valid or damaged: none of this store's business
 				other.StoreChunk(c)
 				if rng.Intn(2) == 0 {
@@ -586,7 +596,6 @@ func runC16(cfg Config) {
 					delete(valid, canon)
 				case 1:
 					damage(canon)
-					valid[canon] = false
 				}
 			default:
 				os.MkdirAll(filepath.Join(root, sid[:4]), 0755)
